@@ -14,6 +14,9 @@ func DropPort(ipport string) string {
 
 	if ipport[0] == '[' { //ipv6 looks like [addr]:port
 		closeBracketIndex := strings.LastIndex(ipport, "]")
+		if closeBracketIndex == -1 {
+			return ipport
+		}
 		ip := ipport[1:closeBracketIndex]
 		return ip
 	} else if ipport[0] != ':' {
